@@ -61,6 +61,15 @@ def main(tier):
     benign = [b for b in mb if json.loads(b)['expect'] == 'Any']
     n, nt = progfam.replay(chk, benign, 0, [], {'broken-noerror'}, tag='ops', mode='meshgl', jobs=12, chunk=3, sig_of=sig)
     total += n; nontriv += nt
+    # the topological kernel under stress (Kernel.tla): short merge edges whose endpoints share up to five neighbours
+    # (link condition fails: FormLoop repair), flat/raised stacked vertices; hulls of point sets spanning no volume in every order
+    for fam in ('collapse', 'hull'):
+        kb, r = progfam.generate('Kernel_%s.cfg' % fam, module='Kernel', timeout=600)
+        chk.coverage['states'] += r.distinct; chk.coverage['transitions'] += r.generated
+        n, nt = progfam.replay(chk, kb, 0, [], OWNED, tag='k' + fam, mode='kernel', jobs=12, chunk=20,
+                               sig_of=lambda f, beh: '%s|%s|%s|%s' % (f['kind'], f['detail'].get('why', ''), f['detail'].get('op', ''), json.dumps(beh)[:200]))
+        total += n; nontriv += nt
+        chk.coverage['kernel_' + fam] = n
     chk.coverage.update({
         'evaluations': total, 'distinct_nontrivial': nontriv,
         'rule': 'Closed2Manifold (directed edge once + opposite once after merge vectors, no repeated vertex, indices in range, '
